@@ -367,6 +367,49 @@ static int hg_write(hg *h, uint64_t off, unsigned width, uint64_t value,
     h->width = width;
     h->value = value;
     h->nwrites++;
+    if (!layout_documented(h->o)) {
+        /* API-level judgement (see c11_bitstream.c): the words that overlap
+         * the range are adopted as they are once the bits of those words
+         * before and after the range read the same as before the write and
+         * the range reads back; every other watched word must equal the
+         * model.  No split re-read: how a field decomposes into narrower
+         * fields is a statement about the stored bit order. */
+        const uint64_t ws = off / W * W, we = (last / W + 1) * W;
+        const unsigned pre = (unsigned)(off - ws);
+        const unsigned suf = (unsigned)(we - (off + width));
+        const uint64_t pre0 = pre ? h->o->get(h->base, (size_t)ws, pre) : 0;
+        const uint64_t suf0 =
+            suf ? h->o->get(h->base, (size_t)(off + width), suf) : 0;
+        h->o->set(h->base, (size_t)off, width, value);
+        for (int64_t wi = (int64_t)(off / W); wi <= (int64_t)(last / W); wi++) {
+            const int e = hg_find(h, wi);
+            h->exp[e] = ldw(hg_addr(h, wi), h->wb);
+        }
+        if (hg_check(h)) {
+            return 1;
+        }
+        const uint64_t got = h->o->get(h->base, (size_t)off, width);
+        if (got != value) {
+            return vf_fail(h->rep, hg_site(h, "get"), "readback",
+                           "%s sparse stream: wrote %u bits 0x%llx at bit %llu, "
+                           "Get of the same range returned 0x%llx",
+                           h->o->name, width, U(value), U(off), U(got));
+        }
+        const uint64_t pre1 = pre ? h->o->get(h->base, (size_t)ws, pre) : 0;
+        const uint64_t suf1 =
+            suf ? h->o->get(h->base, (size_t)(off + width), suf) : 0;
+        if (pre1 != pre0 || suf1 != suf0) {
+            return vf_fail(h->rep, hg_site(h, "set"), "isolation",
+                           "%s sparse stream: write of %u bits (0x%llx) at bit "
+                           "%llu changed the bits %s it in the same word "
+                           "(0x%llx -> 0x%llx)",
+                           h->o->name, width, U(value), U(off),
+                           pre1 != pre0 ? "before" : "after",
+                           U(pre1 != pre0 ? pre0 : suf0),
+                           U(pre1 != pre0 ? pre1 : suf1));
+        }
+        return 0;
+    }
     h->o->set(h->base, (size_t)off, width, value);
     {
         int64_t cw = INT64_MIN;
